@@ -7,6 +7,7 @@ op lines
   rtx  <type> <seed> <depth>              → `n`
   decx <type> <hex>                       → `n`
   rt   <type> <seed> <depth> <env> <mv>   → `<hex> rt=ok|bad|skip` | `err:enc`
+  rtv  <type> <env> <mv>                  → as rt (explicit value)
   dec  <type> <hex> <env>                 → `ok <mv>` | `err`
 -/
 namespace GnoVerif.Drive.C20
@@ -205,6 +206,16 @@ partial def showValNoGZ : Val → String
   | .m _ v => "m(" ++ showValNoGZ v ++ ")"
   | v => showVal v
 
+def tdHasMarsh : TD → Bool
+  | .marsh _ _ => true
+  | .list _ _ e => tdHasMarsh e
+  | _ => false
+
+def envHasMarsh (env : Env) : Bool :=
+  env.any fun e => match e.defn with
+    | .alias td => tdHasMarsh td
+    | .struct fs _ => fs.any fun f => tdHasMarsh f.td
+
 def hexE (bs : Bytes) : String := if bs.isEmpty then "e" else hexOf bs
 
 def runRT (name envS mvS : String) : String :=
@@ -216,7 +227,7 @@ def runRT (name envS mvS : String) : String :=
     | .error _ => "err:enc"
     | .ok bz =>
       let rt :=
-        if (envS.splitOn "M").length > 1 then "skip"
+        if envHasMarsh env then "skip"
         else match unmarshal env name bz with
           | some v' => if showVal v' == showVal v then "ok" else "bad"
           | none => "bad"
@@ -247,6 +258,7 @@ def step (_ : Unit) (t : List String) : Unit × String :=
   | "rtx" :: _ => ((), "n")
   | "decx" :: _ => ((), "n")
   | ["rt", name, _, _, env, mv] => ((), compact (runRT name env mv))
+  | ["rtv", name, env, mv] => ((), compact (runRT name env mv))
   | ["dec", name, hex, env] => ((), compact (runDec name hex env))
   | _ => ((), "err:badop")
 
